@@ -748,6 +748,44 @@ func caseRead() {
 	addVia(fa, n, 7)
 	watch(n)
 	emitPhase("after-own-again")
+	// reading is an observation: a batch of reads must leave the process as it
+	// was - no further mapping of the file, no further open descriptor
+	mapsBefore, fdsBefore := countMaps(path), countFds()
+	reads := 0
+	for i := 0; i < 6; i++ {
+		for _, k := range known {
+			readObs(k.c)
+			reads++
+		}
+		counter.ReadFile(path)
+		reads++
+	}
+	out.Note("read-resource-batch")
+	out.Case(true, "readres", I(int64(reads)), I(int64(mapsBefore)), I(int64(countMaps(path))), I(int64(fdsBefore)), I(int64(countFds())))
+}
+
+// countMaps: number of mappings of the file in this process.
+func countMaps(path string) int {
+	b, err := os.ReadFile("/proc/self/maps")
+	if err != nil {
+		return -1
+	}
+	n := 0
+	for _, line := range strings.Split(string(b), "\n") {
+		if strings.HasSuffix(line, path) {
+			n++
+		}
+	}
+	return n
+}
+
+// countFds: number of open file descriptors of this process.
+func countFds() int {
+	ents, err := os.ReadDir("/proc/self/fd")
+	if err != nil {
+		return -1
+	}
+	return len(ents)
 }
 
 func main() {
